@@ -257,12 +257,12 @@ class Host:
         ks = self.objs.index('KS') if 'KS' in self.objs else None
         late = []
         for spec in self.cfg['watchers']:
-            if ks is not None and spec['o'] % len(self.objs) == ks:
-                late.append(spec)       # registered once KS owns its Parameters (before that they are K's)
+            if ks is not None and spec['o'] % len(self.objs) == ks and not self.cfg.get('ks_early'):
+                late.append(spec)       # registered once KS owns its Parameters (before that they are K's: one table either way)
             else:
                 self.watch(spec)
         if 'KS' in self.objs:
-            # KS only inherits the Parameters of K: its first class-level assignments copy them (with K's watchers)
+            # KS only inherits the Parameters of K: its first class-level assignments copy them (the watcher table stays K's)
             self.trace.append(('OP', -1, 'prelude'))
             try:
                 for n in list(PN[:self.cfg['n_params']]) + (['e'] if self.cfg.get('event') else []):
@@ -370,6 +370,8 @@ class ModelEngine:
             vals = {n: None for n in PN[:cfg['n_params']]}
             vals['e'] = False
             self.m.add_obj(oid, vals, event_params=('e',))
+        if 'KS' in oids:
+            self.m.share_watchers('KS', 'K')
         return oids
 
     def stop(self):
@@ -391,7 +393,8 @@ class ModelEngine:
             if typ == 'triggered' and e.tdef:
                 typ = 'triggered~'      # triggered while deferring: see known finding C04.type_trigger_deferred
             new = '?' if e.new_dc else (r(e.new) if not e.has_alt else (r(e.new), r(e.new_alt)))
-            evs.append((e.name, e.what, '?' if e.old_dc else r(e.old), new, typ))
+            # (a class-level watcher hears of assignments on the other classes of its family: the event names the class assigned)
+            evs.append((e.name, e.what, '?' if e.old_dc else r(e.old), new, typ, 'own' if self.m.cur_src == w.obj else 'other'))
         self.host.on_enter(w, evs, optional)
 
     def on_exit(self, w):
@@ -509,14 +512,17 @@ class RealEngine:
             evs = []
             for e in events:
                 ok = (e.obj is o) if what == 'value' else True
-                if is_cls and what == 'value':
-                    ok = isinstance(e.obj, type) and issubclass(e.obj, o)     # a subclass that copied the Parameter
-                evs.append((e.name, e.what, r(e.old), r(e.new), e.type if ok else f"{e.type}!obj"))
+                src = 'own' if ok else '!obj'
+                if is_cls and what == 'value' and not ok and isinstance(e.obj, type) and (issubclass(e.obj, o) or issubclass(o, e.obj)):
+                    # the classes of a hierarchy that share a Parameter declaration share its table of class-level
+                    # watchers: the event must then name the class that was assigned
+                    src = 'other'
+                evs.append((e.name, e.what, r(e.old), r(e.new), e.type, src))
             self.host.on_enter(w, evs)
             self.host.on_exit(w)
 
         def cb_kwargs(**kw):
-            evs = [(n, 'value', '?', r(v), '?') for n, v in kw.items()]
+            evs = [(n, 'value', '?', r(v), '?', '?') for n, v in kw.items()]
             self.host.on_enter(w, evs)
             self.host.on_exit(w)
 
@@ -645,6 +651,9 @@ def compare(model_trace, real_trace, prop_of_op, tolerated=frozenset(), known=No
                     return (f"{P}.payload", opi, f"w{me[1]} event {n}: old={g[2]} expected {e[2]}")
                 if e[3] != '?' and g[3] != e[3] and not (isinstance(e[3], tuple) and g[3] in e[3]):
                     return (f"{P}.payload", opi, f"w{me[1]} event {n}: new={g[3]} expected {e[3]}")
+                if g[5] != '?' and g[5] != e[5]:
+                    return (f"{P}.payload", opi, f"w{me[1]} event {n}: names {g[5]} object, expected {e[5]} (own = the object the watcher "
+                                                 f"was registered on, other = another class sharing the Parameter declaration)")
                 if e[4] == 'triggered~':
                     if g[4] not in ('?', 'triggered'):
                         d = (f"w{me[1]} event {n}: type={g[4]}, expected 'triggered' (param.trigger called while the object "
@@ -760,6 +769,7 @@ class DispatchWorld:
             'n_params': rng.choice([2, 3, 4]),
             'cls_obj': rng.random() < 0.25,
             'cls_sub': rng.random() < 0.5,
+            'ks_early': rng.random() < 0.5,
             'domain': rng.choice(list(DOMAINS)),
             'p_queued': rng.choice([0.0, 0.15, 0.4]),
             'p_script': rng.choice([0.0, 0.3, 0.6]),
